@@ -312,7 +312,8 @@ impl Environment {
             return Ok((*module).borrow().var_exists(name));
         }
 
-        Ok(self.scopes.var_exists(name))
+        // a variable of a module loaded with `as *` exists too (`get_var` finds it there)
+        Ok(self.scopes.var_exists(name) || self.get_variable_from_global_modules(name).is_some())
     }
 
     pub fn get_var(
